@@ -24,6 +24,7 @@ THEOREMS = [
     "C10.repeat_n_subscribes_n",
     "C10.retry_at_most_n",
     "C10.retry_stops_on_completion",
+    "C10.oern_factory_argument",
 ]
 RULE = ("lists of 0..5 logged cold/hot sources with generated timelines and terminal kinds under rx.concat / ops.concat / rx.catch / ops.catch(obs) / "
         "ops.catch(handler, possibly raising) / rx.on_error_resume_next (sources or factories) / ops.on_error_resume_next / start_with / for_in "
@@ -56,6 +57,9 @@ LEVEL_NOTE = ("Model = RxModel/Comb.lean (uniform event rule, disposable plumbin
 "collapsed into one. The INLINE hand-over (subscription with an ImmediateScheduler, sources terminating inside subscribe) is the machine seqInlineM "
 "(handler followed by the action it armed); for it seq_one_live_inline, seq_output_concat_inline, seq_output_sorted_inline, repeat_n_subscribes_n_inline, "
 "retry_at_most_n_inline and retry_stops_on_completion_inline are proved (seq_next_after_terminal is specific to the queued hand-over). For sources that notify inside subscribe the position of their own unsubscribe is compared by time only. "
+"on_error_resume_next factories: the machine carries the scheduler `state` (predecessor's error / None) and records the argument of every consumed position "
+"(`calls`); the factories of the generated cases log the argument they receive and build a different source for an error than for None; compared with the model and "
+"checked by the oracle (oern_factory_argument is the Lean statement). for_in mappers raise InjectedError, StopIteration or KeyError. "
 "Unlogged failing sources (`rx.throw(ex)` in the source list) are generated for concat / catch / on_error_resume_next under the queued hand-over (item kind `fail`: "
 "concat ends with their error, catch / on_error_resume_next continue over them; under the INLINE hand-over a chain of such sources is not modelled and not generated). "
 "A raising for_in mapper / while_do condition is the item kind `fail` (the code wraps it into a source that fails at once: defer / throw), a raising "
